@@ -58,10 +58,25 @@ Qed.
 (* (c) SearchQuery::slice                                                  *)
 (* ====================================================================== *)
 
+Lemma firstn_clamp (k : Z) (n : nat) (l : list Z) :
+  (length l <= n)%nat -> firstn (Z.to_nat (Z.min k (Z.of_nat n))) l = firstn (Z.to_nat k) l.
+Proof.
+  intros Hn. destruct (Z.le_ge_cases k (Z.of_nat n)); [now rewrite Z.min_l|].
+  rewrite Z.min_r by assumption. rewrite !firstn_all2 by lia. reflexivity.
+Qed.
+
+Lemma skipn_clamp (k : Z) (l : list Z) :
+  skipn (Z.to_nat (Z.min k (Z.of_nat (length l)))) l = skipn (Z.to_nat k) l.
+Proof.
+  destruct (Z.le_ge_cases k (Z.of_nat (length l))); [now rewrite Z.min_l|].
+  rewrite Z.min_r by assumption. rewrite !skipn_all2 by lia. reflexivity.
+Qed.
+
 Lemma slice_ids_clip rv limit offset ids :
   fix_slice_clamp rv = true -> slice_ids rv limit offset ids = SOk (clip limit offset ids).
 Proof.
   intros Hrv. unfold slice_ids, clip. rewrite Hrv.
+  rewrite !skipn_clamp, !firstn_clamp by (rewrite ?skipn_length; lia).
   destruct (Z.eqb_spec limit 0) as [->|Hl]; destruct (Z.eqb_spec offset 0) as [->|Ho]; cbn [andb].
   - reflexivity.
   - destruct (Z.leb_spec offset (Z.of_nat (length ids))); [reflexivity|].
@@ -533,3 +548,27 @@ Lemma slice_examples :
   search rv_fixed ex_db (ex_q AElements 0 0 3 9 [Asc (DI64 1)] []) = SOk [] /\
   search rv_pinned ex_db (ex_q AElements 0 0 3 9 [Asc (DI64 1)] []) = SPanic.
 Proof. vm_compute. repeat split. Qed.
+
+(* ====================================================================== *)
+(* u64 arithmetic of LimitOffsetHandler::new                              *)
+(* ====================================================================== *)
+
+(* The code keeps `limit + offset` in a u64.  Before fix: commit ea4fd27 the sum was unchecked
+   (debug: overflow panic; release: wrapped, e.g. offset 2, limit u64::MAX on 5 elements gave []
+   instead of [3; 4; 5]); now it is `limit.saturating_add(offset)`.  The model adds in Z.  As long
+   as fewer than 2^64 - 2 elements have been selected the saturated and the exact sum make the
+   handler behave identically, so the theorems above transfer to the repaired code. *)
+Definition u64_max : Z := 18446744073709551615.
+
+Lemma limit_offset_no_wrap limit offset counter control :
+  0 <= counter -> counter + 1 < u64_max ->
+  handle (HLimitOffset (Z.min (limit + offset) u64_max) offset) counter control =
+  handle (HLimitOffset (limit + offset) offset) counter control.
+Proof.
+  intros Hc Hm. unfold handle.
+  destruct (sc_true control).
+  - replace (counter + 1 =? Z.min (limit + offset) u64_max) with (counter + 1 =? limit + offset) by lia.
+    reflexivity.
+  - replace (counter =? Z.min (limit + offset) u64_max) with (counter =? limit + offset) by lia.
+    reflexivity.
+Qed.
